@@ -207,9 +207,17 @@ async def execute(gen, ops, w: SockWorld, run: Run, counters=None):
                 await w.sock.send_with_header(hdr, msg, policy)
             else:
                 await w.sock.send(msg, policy)
-        except asyncio.CancelledError:
-            rec["outcome"] = "cancelled"
-            raise
+        except asyncio.CancelledError as e:
+            if asyncio.current_task().cancelling():
+                rec["outcome"] = "cancelled"
+                raise
+            # nobody cancelled this task: the call itself ended with a cancellation that
+            # leaked out of the client (an observation like any other exception)
+            H.HDR_SINK[0] = None
+            rec["outcome"] = "CancelledError"
+            rec["ret_seq"] = log.mark()
+            log.add("API.raise", name="send", serial=rec["serial"], exc=repr(e))
+            return
         except Exception as e:
             H.HDR_SINK[0] = None
             rec["outcome"] = type(e).__name__
@@ -261,8 +269,7 @@ async def execute(gen, ops, w: SockWorld, run: Run, counters=None):
         elif o == "net_default":
             net.default = tuple(op[1:])
         elif o == "open":
-            log.add("API.call", name="open")
-            await w.sock.open_socket()
+            await _guarded(w, run, "open", w.sock.open_socket())
         elif o == "close":
             await _guarded(w, run, "close", w.sock.close())
         elif o in ("fin", "rst", "stall", "unstall", "garbage", "data", "wfail"):
@@ -335,9 +342,9 @@ async def execute(gen, ops, w: SockWorld, run: Run, counters=None):
             w.msg_delays.append(op[1])
         elif o == "sub_raise":
             if op[1] == "msg":
-                w.raise_in_msg_sub = bool(op[2])
+                w.raise_in_msg_sub = op[2]     # 0 off, 1 raises, 2 ends cancelled
             else:
-                w.raise_in_conn_sub = bool(op[2])
+                w.raise_in_conn_sub = op[2]
         else:
             raise ValueError(f"unknown op {op!r}")
     run.tasks = tasks
@@ -353,8 +360,13 @@ async def _guarded(w, run, name, coro):
     w.log.add("API.call", name=name)
     try:
         await coro
-    except asyncio.CancelledError:
-        raise
+    except asyncio.CancelledError as e:
+        if asyncio.current_task().cancelling():
+            raise
+        # (a cancellation nobody asked for, leaking out of the client)
+        run.api_errors.append({"call": name, "exc": repr(e), "t": w.loop.time()})
+        w.log.add("API.raise", name=name, exc=repr(e))
+        return
     except Exception as e:  # noqa: BLE001
         run.api_errors.append({"call": name, "exc": repr(e), "t": w.loop.time()})
         w.log.add("API.raise", name=name, exc=repr(e))
@@ -374,7 +386,7 @@ def run_script(gen, ops, *, tail=None, open_first=True, settle=40.0, debug=False
         w = SockWorld(gen, loop, net, log)
         run.world = w
         if open_first:
-            await w.sock.open_socket()
+            await _guarded(w, run, "open", w.sock.open_socket())
         counters = await execute(gen, ops, w, run)
         for k in KINDS:
             _SERIAL_BASE[k] += counters[k]
